@@ -93,7 +93,11 @@ def judge (f out : List String) : Verdict :=
     let dnaU := t1 == "DNA" && (upper s1).contains 'U'
     let same := o1 == m1 && o2 == m2
     let rejectedU := dnaU && o1 == ["err"] && o2 == ["err"]
-    let repaired := dnaU && !same && (rejectedU || (inDom && j))
+    -- …and then the two replies must CORRESPOND to the model under the repaired reading (U read as T); which reading a
+    -- run uses must be one and the same for all calls: that is judged by C05's relational `ureading` cases
+    let foldU := fun (s : Str) => s.map fun c => if c == 'U' || c == 'u' then 'T' else c
+    let foldedSame := o1 == outStr (hash Blake3.sum256 (foldU s1) t1 c1 d1) && o2 == outStr (hash Blake3.sum256 (foldU s2) t2 c2 d2)
+    let repaired := dnaU && !same && (rejectedU || (inDom && j && foldedSame))
     { corr := same || repaired, judge := if inDom && !rejectedU then some j else none,
       cls := (if triv || s1.length < 2 then "triv:" else "") ++ kind ++ "/" ++ t1 ++ (if c1 then "C" else "L") ++ (if d1 then "D" else "S") ++
              (if repaired then "/kf-repaired" else ""),
